@@ -210,6 +210,8 @@ class RefRun:
         h = st["h"]
         v = leaf_values(st)
         self.isint[h] = st["kind"] in ("intarray", "intscalar", "inttensor")
+        if st.get("dtype") in ("float32", "float16"):
+            self.lowprec = True  # MyGrad computes (part of) this program in low precision; REF always in float64
         a = np.array(v, dtype=np.float64 if not self.isint[h] else None)
         if st.get("order") == "F" and a.ndim >= 2:
             a = np.asfortranarray(a)
